@@ -295,9 +295,8 @@ class C13(core.PropBase):
         for _ in range(20000 if thorough else 3000):
             yield {"k": "b", "s": rand_big(rng)}
         # 4. str(from_list(random list)) fed back as an expression, and a few mutated expressions
-        #    (c08.cap_digits bounds the digits per string: the extracted model of the shared Lexer.v doubles
-        #     its running time with every digit that continues a number — a cost, not a semantic, issue;
-        #     from_list above exercises long and large numbers without lexing)
+        #    (c08.cap_digits bounds the digits per string: these requests enumerate the values and carry them
+        #     as OCaml ints; longer numbers go through the long-expression family above)
         for _ in range(10000 if thorough else 1000):
             vs = rand_int_list(rng)
             yield {"k": "s", "s": c08.cap_digits(",".join(str(v) for v in vs))}
@@ -343,14 +342,7 @@ class C13(core.PropBase):
 
     def requests(self, case):
         if case["k"] == "b":
-            try:
-                toks = lex_tokens(case["s"])       # the model's lexer is exercised by the 's' cases
-            except BaseException:  # noqa: BLE001
-                return []
-            if any(isinstance(t, list) and t[0] == "?" for t in toks):
-                return []
-            return [["big", False, False, [[t[0], zb(t[1])] if isinstance(t, list) else t for t in toks],
-                     [zb(i) for i in big_indices(case["s"])]]]
+            return [["big_str", False, False, core.cps(case["s"]), [zb(i) for i in big_indices(case["s"])]]]
         if case["k"] == "s":
             return [["from_str", False, False, core.cps(case["s"]), "auto"]]
         return [["from_list", False, False, [int(v) for v in case["vs"]], "auto"]]
